@@ -109,16 +109,64 @@ def triage(pid, case, failures, stats):
     return unknown
 
 
-def check_case(pid, predicate, case, stats):
+CASE_LIMIT_S = int(os.environ.get("VERIF_CASE_LIMIT", "45"))
+MAX_TIMEOUTS = 4
+
+
+class CaseTimeout(BaseException):
+    """A single case exceeded the wall budget (BaseException: not swallowed by predicates)."""
+
+
+class ShardAbort(BaseException):
+    """Too many case timeouts in one shard: give up (inconclusive, never a violation)."""
+
+
+def _on_alarm(signum, frame):
+    raise CaseTimeout()
+
+
+def time_limited(fn, stats, label="case"):
+    """Run fn() under the per-case wall budget.  -> (finished, result).
+
+    Normal cases take well under a second; the budget only exists so that a change to the code under
+    test that makes validation explode (exponentially nested elements, endless loops) cannot hang a
+    check.  A timeout is counted as inconclusive and is NEVER reported as a violation.
+    """
+    import signal
+    import threading
+
+    if threading.current_thread() is not threading.main_thread():
+        return True, fn()
+    old = signal.signal(signal.SIGALRM, _on_alarm)
+    signal.setitimer(signal.ITIMER_REAL, CASE_LIMIT_S)
+    try:
+        return True, fn()
+    except CaseTimeout:
+        stats.inconclusive[label + "-timeout"] += 1
+        if stats.inconclusive[label + "-timeout"] >= MAX_TIMEOUTS:
+            raise ShardAbort(f"{MAX_TIMEOUTS} cases exceeded {CASE_LIMIT_S}s") from None
+        return False, None
+    finally:
+        signal.setitimer(signal.ITIMER_REAL, 0)
+        signal.signal(signal.SIGALRM, old)
+
+
+def check_case(pid, predicate, case, stats, limit=True):
     """Run predicate; raise Violation for anything not explained."""
-    failures = predicate(case, stats) or []
+    if limit:
+        finished, failures = time_limited(lambda: predicate(case, stats), stats)
+        if not finished:
+            return
+        failures = failures or []
+    else:
+        failures = predicate(case, stats) or []
     unknown = triage(pid, case, failures, stats)
     if unknown:
         # a predicate over a batch may name the single member that failed
         raise Violation(unknown[0].get("replay_case", case), unknown)
 
 
-def hyp_run(ctx, stats, strategy, predicate, max_examples, salt=0, shrink=True):
+def hyp_run(ctx, stats, strategy, predicate, max_examples, salt=0, shrink=True, limit=True):
     """Drive predicate over strategy with Hypothesis. -> None or failure dict."""
     from hypothesis import HealthCheck, Phase, given, seed, settings
 
@@ -142,7 +190,7 @@ def hyp_run(ctx, stats, strategy, predicate, max_examples, salt=0, shrink=True):
     @given(strategy)
     def test(case):
         try:
-            check_case(ctx.pid, predicate, case, stats)
+            check_case(ctx.pid, predicate, case, stats, limit=limit)
         except Violation as v:
             last["case"] = v.case
             last["failures"] = v.failures
@@ -229,7 +277,11 @@ def _shard_entry(args):
         mod = importlib.import_module(modname)
         ctx = Ctx(mod.PID, tier, seed, shard, nshards)
         stats = Stats()
-        failure = mod.run_shard(ctx, stats)
+        try:
+            failure = mod.run_shard(ctx, stats)
+        except ShardAbort as exc:
+            failure = None
+            stats.inconclusive["shard-aborted: " + str(exc)] += 1
         out = stats.to_dict()
         out["failure"] = failure
         out["wall"] = time.time() - t0
@@ -311,7 +363,11 @@ def run_check(mod, tier, seed):
         print(f"HARNESS-ERROR property={pid} (corpus/probes)\n{traceback.format_exc()}")
         return 2
     args = [(mod.__name__, tier, seed, i, nshards) for i in range(nshards)]
-    if nshards == 1 or os.environ.get("VERIF_INPROC"):
+    if corpus_failures:
+        # a saved regression input already fails: report it, do not spend the search budget
+        args = []
+        results = []
+    elif nshards == 1 or os.environ.get("VERIF_INPROC"):
         results = [_shard_entry(a) for a in args]
     else:
         ctxm = multiprocessing.get_context("fork")
@@ -322,6 +378,13 @@ def run_check(mod, tier, seed):
     if errors:
         for r in errors[:3]:
             print(f"HARNESS-ERROR property={pid} shard={r['shard']}\n{r['harness_error']}")
+        if corpus_failures:
+            # a saved regression input failed through the plain predicate: that verdict stands on its own
+            for f in corpus_failures:
+                rel = os.path.relpath(f["corpus"], HOME)
+                kinds = sorted({str(x.get("kind")) for x in f["failures"]})
+                print(f"VIOLATION property={pid} replay={rel} kinds={','.join(kinds)}")
+            return 1
         return 2
 
     merged = Stats()
